@@ -3,8 +3,10 @@ Tie T for two small decision rules of /repo/src/wasm.rs that the engine model tr
 
  * `execute_submsg` (C03): in which arm (`Ok` / `Err` of the sub-message result) `reply` is called for which
    `reply_on` variants (`matches!(reply_on, …)`), what the `Reply { … }` literal of that arm is built from
-   (id, payload, result kind and — for `Ok` — the events and data handed over), and what happens to the
-   sub-message's own data when no reply is called.
+   (id, payload, result kind and — for `Ok` — the events and data handed over). Both spellings of the case
+   distinction (`if let Ok(..) = r {..} else if let Err(..) = r {..}` / `match r { Ok(..) => {..} Err(..) => {..} }`) and of the
+   test (`matches!(reply_on, A | B)` / `reply_on == ReplyOn::A || reply_on == ReplyOn::B`, any order) are read; local variable
+   names are canonicalised. What is done with the reply's response afterwards is covered by the correspondence, not by this table.
  * `verify_attributes` / `verify_response` (C13): what is trimmed, which conditions bail, in which order, and
    over which parts of the response.
 
@@ -42,80 +44,87 @@ def struct_fields(lit):
     return out
 
 
+def _arms(body):
+    """(outcome, bound pattern, block text) for `if let Ok(p) = X {..}` / `else if let Err(p) = X {..}` and for the arms of a
+    `match X { Ok(p) => {..} Err(p) => {..} }` over the sub-message result"""
+    out = []
+    for m in re.finditer(r"\bif\s+let\s+(Ok|Err)\s*\(([^)]*)\)\s*=\s*(\w+)\s*\{", body):
+        lo = m.end() - 1
+        out.append((m.group(1), m.group(2), body[lo + 1:C.match_close(body, lo)]))
+    if out:
+        return out
+    for mm in re.finditer(r"\bmatch\s+(\w+)\s*\{", body):
+        lo = mm.end() - 1
+        blk = body[lo + 1:C.match_close(body, lo)]
+        found = []
+        for m in re.finditer(r"\b(Ok|Err)\s*\(([^)]*)\)\s*=>\s*\{", blk):
+            l2 = m.end() - 1
+            found.append((m.group(1), m.group(2), blk[l2 + 1:C.match_close(blk, l2)]))
+        if {f[0] for f in found} == {"Ok", "Err"}:
+            return found
+    return out
+
+
+def _modes(blk):
+    """the reply_on variants of the arm's test: `matches!(reply_on, A | B)` or `reply_on == ReplyOn::A || reply_on == ReplyOn::B`"""
+    mm = list(re.finditer(r"\bmatches!\s*\(", blk))
+    if len(mm) == 1:
+        j = C.match_close(blk, mm[0].end() - 1)
+        args = C.split_top(blk[mm[0].end():j])
+        if len(args) == 2 and C.squash(args[0]) == "reply_on":
+            return sorted(re.sub(r"^ReplyOn::", "", C.squash(v)) for v in args[1].split("|"))
+        return None
+    if not mm:
+        eqs = re.findall(r"\breply_on\s*==\s*ReplyOn::(\w+)", blk)
+        neg = re.search(r"\breply_on\s*!=", blk)
+        if eqs and not neg:
+            return sorted(set(eqs))
+    return None
+
+
 def read_reply(src):
     body = fn_body(src, "execute_submsg")
     arms, notes = [], []
     if body is None:
-        return [{"outcome": "?", "modes": ["?"], "fields": [], "then": [], "otherwise": []}], ["execute_submsg not found"]
-    for m in re.finditer(r"\bif\s+let\s+(Ok|Err)\s*\(([^)]*)\)\s*=\s*(\w+)\s*\{", body):
-        lo = m.end() - 1
-        hi = C.match_close(body, lo)
-        blk = body[lo + 1:hi]
-        arm = {"outcome": m.group(1), "modes": ["?"], "fields": [], "then": [], "otherwise": []}
-        var = re.sub(r"^mut\s+", "", m.group(2).strip())
-        mm = list(re.finditer(r"\bif\s+matches!\s*\(", blk))
-        if len(mm) != 1:
-            notes.append("execute_submsg: %s arm: %d `if matches!(..)` tests" % (m.group(1), len(mm)))
-            arms.append(arm)
-            continue
-        j = C.match_close(blk, mm[0].end() - 1)
-        args = C.split_top(blk[mm[0].end():j])
-        if len(args) == 2 and C.squash(args[0]) == "reply_on":
-            arm["modes"] = [re.sub(r"^ReplyOn::", "", C.squash(v)) for v in args[1].split("|")]
+        return [{"outcome": "?", "modes": ["?"], "fields": []}], ["execute_submsg not found"]
+    for outcome, pat, blk in _arms(body):
+        arm = {"outcome": outcome, "modes": ["?"], "fields": []}
+        var = re.sub(r"^mut\s+", "", pat.strip())
+        modes = _modes(blk)
+        if modes is None:
+            notes.append("execute_submsg: %s arm: no single test of reply_on (matches!(reply_on, ..) or reply_on == .. || ..)" % outcome)
         else:
-            notes.append("execute_submsg: %s arm: matches! is not a test of reply_on" % m.group(1))
-        t_lo = blk.find("{", j)
-        t_hi = C.match_close(blk, t_lo)
-        then = blk[t_lo + 1:t_hi]
-        em = re.match(r"\s*else\s*\{", blk[t_hi + 1:])
-        other = ""
-        if em:
-            o_lo = t_hi + 1 + em.end() - 1
-            other = blk[o_lo + 1:C.match_close(blk, o_lo)]
-        rl = list(re.finditer(r"\bReply\s*\{", then))
+            arm["modes"] = modes
+        rl = list(re.finditer(r"\bReply\s*\{", blk))
         if len(rl) == 1:
-            k = C.match_close(then, rl[0].end() - 1)
-            for (f, e) in struct_fields(then[rl[0].end():k]):
+            k = C.match_close(blk, rl[0].end() - 1)
+            for (f, e) in struct_fields(blk[rl[0].end():k]):
                 if f == "result":
                     arm["fields"].append(("result", e.split("(")[0]))
-                    sm_ = re.search(r"\bSubMsgResponse\s*\{", then[rl[0].end():k])
+                    sm_ = re.search(r"\bSubMsgResponse\s*\{", blk[rl[0].end():k])
                     if sm_:
                         s0 = rl[0].end() + sm_.end() - 1
-                        for (f2, e2) in struct_fields(then[s0 + 1:C.match_close(then, s0)]):
+                        for (f2, e2) in struct_fields(blk[s0 + 1:C.match_close(blk, s0)]):
                             if f2 in ("events", "data"):
                                 arm["fields"].append(("result." + f2, e2))
                 else:
                     arm["fields"].append((f, e))
         else:
-            notes.append("execute_submsg: %s arm: %d Reply literals" % (m.group(1), len(rl)))
+            notes.append("execute_submsg: %s arm: %d Reply literals" % (outcome, len(rl)))
             arm["fields"] = [("?", "?")]
-        # what happens to the sub-message's response `var` with / without a reply, and who is handed the Reply
-        def canon(s, extra=()):
-            """local names are not part of the rule: the arm's bound variable becomes `$r`, let-bound names `$v`"""
-            s = re.sub(r"\b%s\b" % re.escape(var), "$r", s)
-            for x in extra:
-                s = re.sub(r"\b%s\b" % re.escape(x), "$v", s)
-            return s
-
-        def effects(text):
-            out, lets = [], []
-            for st in C.split_top(text, ";"):
-                s = C.squash(st)
-                lm = re.match(r"^let (?:mut )?(\w+)(?::[^=]*)?=", s)
-                if lm and re.search(r"\bself\.reply\(", s):
-                    lets.append(lm.group(1))
-                if re.match(r"^%s\.\w+(=[^=]|\.)" % re.escape(var), s) or re.search(r"\bself\.reply\(", s) or re.match(r"^(Ok|Err)\(", s):
-                    s = re.sub(r"Reply\{.*\}", "Reply{..}", s)
-                    out.append(canon(s, lets))
-            return out
-        arm["fields"] = [(f, canon(e)) for f, e in arm["fields"]]
-        arm["then"] = effects(then)
-        arm["otherwise"] = effects(other)
+        # local names are not part of the rule: the arm's bound variable becomes `$r`
+        arm["fields"] = [(f, re.sub(r"\b%s\b" % re.escape(var), "$r", e)) for f, e in arm["fields"]]
         arms.append(arm)
+    if not arms:
+        notes.append("execute_submsg: no case distinction on the sub-message result found")
+        arms = [{"outcome": "?", "modes": ["?"], "fields": []}]
     return arms, notes
 
 
 def read_verify(src):
+    """every `let x = e;`, `if c { bail!(..) }`, `for p in e {` (or `e.iter().try_for_each(|p| ..`), `Self::f(..)?;` of the two
+    functions in textual order; local names are canonicalised by role (`$attr`, `$event` loop variables; `$key`, `$val`, `$ty` the
+    trimmed key / value / event type), so a renamed local is not a changed rule"""
     notes, steps = [], []
     for fn in ("verify_attributes", "verify_response"):
         body = fn_body(src, fn)
@@ -123,43 +132,54 @@ def read_verify(src):
             notes.append("%s not found" % fn)
             steps.append((fn, "?", "?"))
             continue
-        # flatten: every `let x = e;`, `if c { bail!(..) }`, `for p in e {`, `Self::f(..)?;` in textual order
-        for m in re.finditer(r"\blet\s+(\w+)\s*=\s*([^;]*);|\bif\s+([^{]*)\{\s*bail!|\bfor\s+(\w+)\s+in\s+([^{]*)\{|(Self::\w+\s*\([^;]*\))\s*\?\s*;", body):
+        ren = {}
+
+        def canon(e):
+            for a, b in ren.items():
+                e = re.sub(r"(?<![\w$])%s\b" % re.escape(a), b, e)
+            return e
+        rx = (r"\blet\s+(\w+)\s*=\s*([^;]*);|\bif\s+([^{]*)\{\s*bail!|\bfor\s+(\w+)\s+in\s+([^{]*)\{|"
+              r"([\w\.&]+?)(?:\.iter\(\))?\.try_for_each\(\|(\w+)\||(Self::\w+\s*\([^;]*\))\s*\?\s*;")
+        for m in re.finditer(rx, body):
             if m.group(1):
-                steps.append((fn, "let " + m.group(1), C.squash(m.group(2))))
+                e = canon(C.squash(m.group(2)))
+                role = "$key" if e.endswith(".key.trim()") else "$val" if e.endswith(".value.trim()") else "$ty" if e.endswith(".ty.trim()") else None
+                if role:
+                    ren[m.group(1)] = role
+                steps.append((fn, "let " + (role or m.group(1)), e))
             elif m.group(3):
-                steps.append((fn, "bail-if", C.squash(m.group(3))))
-            elif m.group(4):
-                steps.append((fn, "for " + m.group(4), C.squash(m.group(5))))
+                steps.append((fn, "bail-if", canon(C.squash(m.group(3)))))
+            elif m.group(4) or m.group(7):
+                var = m.group(4) or m.group(7)
+                it = canon(C.squash(m.group(5) if m.group(4) else m.group(6)))
+                it = re.sub(r"\.iter\(\)$", "", it)
+                role = "$event" if it.endswith("events") else "$attr"
+                ren[var] = role
+                steps.append((fn, "for " + role, it.lstrip("&")))
             else:
-                steps.append((fn, "call", C.squash(m.group(6))))
+                steps.append((fn, "call", canon(C.squash(m.group(8)))))
     return steps, notes
 
 
 EXPECTED_ARMS = [
     {"outcome": "Ok", "modes": ["Always", "Success"],
      "fields": [("id", "id"), ("payload", "payload"), ("gas_used", "0"), ("result", "SubMsgResult::Ok"),
-                ("result.events", "$r.events.clone()"), ("result.data", "$r.data.clone()")],
-     "then": ["let $v=self.reply(api,router,storage,block,contract,reply)?", "$r.data=$v.data",
-              "$r.events.extend_from_slice(&$v.events)"],
-     "otherwise": ["$r.data=None"]},
+                ("result.events", "$r.events.clone()"), ("result.data", "$r.data.clone()")]},
     {"outcome": "Err", "modes": ["Always", "Error"],
-     "fields": [("id", "id"), ("payload", "payload"), ("gas_used", "0"), ("result", "SubMsgResult::Err")],
-     "then": ["self.reply(api,router,storage,block,contract,reply)"],
-     "otherwise": ["Err($r)"]},
+     "fields": [("id", "id"), ("payload", "payload"), ("gas_used", "0"), ("result", "SubMsgResult::Err")]},
 ]
 
 EXPECTED_VERIFY = [
-    ("verify_attributes", "for attr", "attributes"),
-    ("verify_attributes", "let key", "attr.key.trim()"),
-    ("verify_attributes", "let val", "attr.value.trim()"),
-    ("verify_attributes", "bail-if", "key.is_empty()"),
-    ("verify_attributes", "bail-if", "key.starts_with('_')"),
+    ("verify_attributes", "for $attr", "attributes"),
+    ("verify_attributes", "let $key", "$attr.key.trim()"),
+    ("verify_attributes", "let $val", "$attr.value.trim()"),
+    ("verify_attributes", "bail-if", "$key.is_empty()"),
+    ("verify_attributes", "bail-if", "$key.starts_with('_')"),
     ("verify_response", "call", "Self::verify_attributes(&response.attributes)"),
-    ("verify_response", "for event", "&response.events"),
-    ("verify_response", "call", "Self::verify_attributes(&event.attributes)"),
-    ("verify_response", "let ty", "event.ty.trim()"),
-    ("verify_response", "bail-if", "ty.len()<2"),
+    ("verify_response", "for $event", "response.events"),
+    ("verify_response", "call", "Self::verify_attributes(&$event.attributes)"),
+    ("verify_response", "let $ty", "$event.ty.trim()"),
+    ("verify_response", "bail-if", "$ty.len()<2"),
 ]
 
 
@@ -169,16 +189,15 @@ def lean_file(arms, steps):
 
     def strs(l):
         return "[" + ", ".join(C.lean_str(x) for x in l) + "]"
-    rows = ["  { outcome := %s, modes := %s,\n    fields := %s,\n    thenDo := %s,\n    otherwise := %s }" % (
-        C.lean_str(a["outcome"]), strs(a["modes"]), pairs(a["fields"]), strs(a["then"]), strs(a["otherwise"])) for a in arms]
+    rows = ["  { outcome := %s, modes := %s,\n    fields := %s }" % (
+        C.lean_str(a["outcome"]), strs(a["modes"]), pairs(a["fields"])) for a in arms]
     vs = ["  (%s, %s, %s)" % (C.lean_str(a), C.lean_str(b), C.lean_str(c)) for a, b, c in steps]
     return ("""import CwMt.Model.Rules
 /- GENERATED by /verif/checklib/tr_rules.py from /repo/src/wasm.rs on every check run. Do not edit. -/
 namespace CwMt.Gen.Rules
 open CwMt
 
-/-- `execute_submsg`: per arm of the sub-message result, the reply_on variants that trigger `reply`, the `Reply` literal, and
-what is done to the sub-message's response with / without a reply -/
+/-- `execute_submsg`: per arm of the sub-message result, the reply_on variants that trigger `reply` (sorted) and the `Reply` literal -/
 def replyArms : List ReplyArm := [
 """ + ",\n".join(rows) + """
 ]
@@ -199,13 +218,13 @@ def translate(root, log):
         arms, n1 = read_reply(src)
         steps, n2 = read_verify(src)
     except Exception as e:
-        arms, steps, n1, n2 = [{"outcome": "?", "modes": ["?"], "fields": [], "then": [], "otherwise": []}], [("?", "?", "?")], ["%r" % (e,)], []
+        arms, steps, n1, n2 = [{"outcome": "?", "modes": ["?"], "fields": []}], [("?", "?", "?")], ["%r" % (e,)], []
     problems += ["tr_rules: " + n for n in n1 + n2]
     C.write_if_changed(os.path.join(root, "lean", "CwMt", "Gen", "Rules.lean"), lean_file(arms, steps), log)
     got = [dict(a, fields=[tuple(f) for f in a["fields"]]) for a in arms]
     if got != EXPECTED_ARMS:
         problems.append("tr_rules: execute_submsg's reply rule differs from the one Engine.executeSubmsg transcribes: %s" % (
-            [(a["outcome"], a["modes"], a["fields"], a["then"], a["otherwise"]) for a in got if a not in EXPECTED_ARMS],))
+            [(a["outcome"], a["modes"], a["fields"]) for a in got if a not in EXPECTED_ARMS],))
     if steps != EXPECTED_VERIFY:
         problems.append("tr_rules: response validation differs from the one attrOk/eventOk/responseOk transcribe: %s" % (
             [s for s in steps if s not in EXPECTED_VERIFY] + [("missing",) + s for s in EXPECTED_VERIFY if s not in steps],))
